@@ -633,7 +633,11 @@ func (p *InlineParser) parseBackslash(state *inlineState, start int) (end int) {
 		})
 		return end
 	}
-	end = start + 2
+	// A backslash before any other character is a literal backslash.
+	// Only consume the backslash itself:
+	// the following byte may be the start of a multi-byte character
+	// or of another inline construct.
+	end = start + 1
 	state.addToRoot(&Inline{
 		kind: TextKind,
 		span: Span{
